@@ -4,7 +4,8 @@
 //! Request line: `kv=<0|1> cfg=<mock layout> <op> …` with ops
 //! `W:<csv>` with_prompt, `A:<csv>` append_prompt, `C` clear_prompt, `P` process_prompt,
 //! `N:<tok>` next (scripted sampler returns `tok`), `E` next with a filter removing all logits,
-//! `PF` / `NF` process_prompt / next where the mock's `Model::run` returns an error.
+//! `PF` / `NF` process_prompt / next where the mock's `Model::run` returns an error,
+//! `NL` next where the run succeeds but the logits tensor has the wrong rank.
 //! `api <names>`: the public methods of `Generator` found in the source under test.
 //!
 //! Answer: one section per op joined by ` | `:
@@ -51,6 +52,8 @@ enum Op {
     E,
     PF,
     NF,
+    /// next where the mock returns a logits tensor of the wrong rank
+    NL,
 }
 
 fn csv(xs: &[u32]) -> String {
@@ -68,6 +71,7 @@ impl Op {
             Op::E => "E".into(),
             Op::PF => "PF".into(),
             Op::NF => "NF".into(),
+            Op::NL => "NL".into(),
         }
     }
 }
@@ -144,6 +148,7 @@ struct Mock {
     log: RefCell<Vec<CallLog>>,
     calls: Cell<u32>,
     fail_next: Cell<bool>,
+    bad_logits_next: Cell<bool>,
     partial_runs: Cell<u32>,
 }
 
@@ -227,6 +232,7 @@ impl Mock {
             log: RefCell::new(vec![]),
             calls: Cell::new(0),
             fail_next: Cell::new(false),
+            bad_logits_next: Cell::new(false),
             partial_runs: Cell::new(0),
         }
     }
@@ -389,6 +395,10 @@ impl Model for Mock {
         let mut result = vec![];
         for id in outputs {
             if *id == self.logits_id {
+                if self.bad_logits_next.replace(false) {
+                    result.push(Value::FloatTensor(NdTensor::<f32, 2>::zeros([lg.toks.len(), VOCAB]).into()));
+                    continue;
+                }
                 result.push(Value::FloatTensor(NdTensor::<f32, 3>::zeros([1, lg.toks.len(), VOCAB]).into()));
             } else if let Some(si) = self.slots.iter().position(|s| s.output == *id) {
                 result.push(self.encode_cache(&lg.caches_out[si]));
@@ -467,7 +477,7 @@ fn cache_id(caches: &[(usize, &Option<Result<CacheContent, String>>)]) -> Result
     Ok(id_len.unwrap_or((0, 0)))
 }
 
-fn show_call(mock: &Mock, lg: &CallLog) -> String {
+fn show_call(mock: &Mock, lg: &CallLog, spec: bool) -> String {
     let lay = &mock.lay;
     // With no token fed the position range is empty and the start is not observable from
     // the call alone (the oracle still checks the attention-mask length): printed as `_`.
@@ -495,7 +505,7 @@ fn show_call(mock: &Mock, lg: &CallLog) -> String {
     let mut s = format!(
         "R({}@{};{};L{};m{};u{};e{};{})",
         csv(&lg.toks),
-        start,
+        if spec { lg.pos_ids.first().map(|p| *p as usize).or(lg.attn_len.map(|n| n - lg.toks.len())).map(|p| p.to_string()).unwrap_or("?".into()) } else { start },
         cache,
         lg.logits as u8,
         m,
@@ -528,6 +538,8 @@ struct CaseResult {
     answer: String,
     fail: Option<String>,
     observed_failure_recovery: bool,
+    /// `<observed calls> :: prev=… in=…` for the `spec` request (None if the generator was lost)
+    spec_obs: Option<String>,
 }
 
 fn run_case(lay: MockLayout, ops: &[Op], distinct: bool) -> CaseResult {
@@ -540,7 +552,7 @@ fn run_case(lay: MockLayout, ops: &[Op], distinct: bool) -> CaseResult {
     let const_tensor = NdTensor::<i32, 1>::from([11, 22, 33]);
     let generator = match Generator::from_model_config(&mock, cfg) {
         Ok(g) => g,
-        Err(e) => return CaseResult { answer: format!("init-error {e}"), fail: None, observed_failure_recovery: false },
+        Err(e) => return CaseResult { answer: format!("init-error {e}"), fail: None, observed_failure_recovery: false, spec_obs: None },
     };
     let generator = generator
         .with_sampler(ScriptSampler(tok_cell.clone()))
@@ -573,6 +585,7 @@ fn run_case(lay: MockLayout, ops: &[Op], distinct: bool) -> CaseResult {
         let seen_before = seen.borrow().len();
         let pend_before: Vec<u32> = rf.pend.iter().map(|x| x.0).collect();
         mock.fail_next.set(matches!(op, Op::PF | Op::NF));
+        mock.bad_logits_next.set(matches!(op, Op::NL));
         let outcome: String = if let Op::W(p) = op {
             let g = generator.take().unwrap();
             match hcommon::catch(move || g.with_prompt(p)) {
@@ -591,6 +604,8 @@ fn run_case(lay: MockLayout, ops: &[Op], distinct: bool) -> CaseResult {
             let map_err = |m: String| {
                 if m.contains("filtered logits are empty") {
                     "err=empty".to_string()
+                } else if m.contains("failed to extract logits") {
+                    "err=logits".to_string()
                 } else if m.contains("failed to run model") && m.contains("mock model failure") {
                     "err=run".to_string()
                 } else {
@@ -611,7 +626,7 @@ fn run_case(lay: MockLayout, ops: &[Op], distinct: bool) -> CaseResult {
                     Ok(()) => "ok".to_string(),
                     Err(e) => map_err(e.to_string()),
                 },
-                Op::N(_) | Op::E | Op::NF => {
+                Op::N(_) | Op::E | Op::NF | Op::NL => {
                     if let Op::N(t) = op {
                         tok_cell.set(*t);
                     }
@@ -630,11 +645,12 @@ fn run_case(lay: MockLayout, ops: &[Op], distinct: bool) -> CaseResult {
             }
         };
         mock.fail_next.set(false);
+        mock.bad_logits_next.set(false);
         let g = generator.as_ref().unwrap();
 
         // ---- canonical section from implementation observables only
         let log = mock.log.borrow();
-        let calls: Vec<String> = log[log_before..].iter().map(|c| show_call(&mock, c)).collect();
+        let calls: Vec<String> = log[log_before..].iter().map(|c| show_call(&mock, c, false)).collect();
         let calls_s = if calls.is_empty() { "-".to_string() } else { calls.join("+") };
         let seen_v = seen.borrow();
         let filt_s = if seen_v.len() > seen_before {
@@ -666,7 +682,7 @@ fn run_case(lay: MockLayout, ops: &[Op], distinct: bool) -> CaseResult {
                 rf.pend.clear();
                 rf.discarded = true;
             }
-            Op::P | Op::N(_) | Op::E | Op::PF | Op::NF => expect_call = true,
+            Op::P | Op::N(_) | Op::E | Op::PF | Op::NF | Op::NL => expect_call = true,
         }
         let expect_fail = matches!(op, Op::PF | Op::NF);
         let mut problems: Vec<String> = vec![];
@@ -824,7 +840,10 @@ fn run_case(lay: MockLayout, ops: &[Op], distinct: bool) -> CaseResult {
             rf.hist.push(t);
             rf.pend.push((t, false));
         }
-        if outcome.starts_with("err=") && outcome != "err=empty" && outcome != "err=run" {
+        if matches!(op, Op::NL) != (outcome == "err=logits") {
+            problems.push(format!("malformed logits scripted={} but outcome {outcome}", matches!(op, Op::NL)));
+        }
+        if outcome.starts_with("err=") && outcome != "err=empty" && outcome != "err=run" && outcome != "err=logits" {
             problems.push(format!("unexpected error {outcome}"));
         }
         // T1: nothing remains pending after a successful run; pending == reference
@@ -860,7 +879,23 @@ fn run_case(lay: MockLayout, ops: &[Op], distinct: bool) -> CaseResult {
             fail = Some(format!("constant propagation (partial_run) ran {} times for {} model runs, expected {}", mock.partial_runs.get(), runs, want));
         }
     }
-    CaseResult { answer: sections.join(" | "), fail, observed_failure_recovery: recovered }
+    let spec_obs = generator.as_ref().map(|g| {
+        let log = mock.log.borrow();
+        let calls: Vec<String> = log
+            .iter()
+            .map(|c| {
+                let s = show_call(&mock, c, true);
+                s.trim_start_matches("R(").trim_end_matches(')').to_string()
+            })
+            .collect();
+        format!(
+            "{} :: prev={} in={}",
+            if calls.is_empty() { "-".to_string() } else { calls.join(" ") },
+            csv(g.prev_tokens()),
+            csv(g.prompt())
+        )
+    });
+    CaseResult { answer: sections.join(" | "), fail, observed_failure_recovery: recovered, spec_obs }
 }
 
 fn gen_tokens(rng: &mut Rng, pool: &mut Vec<u32>, distinct: bool, n: usize) -> Vec<u32> {
@@ -889,7 +924,11 @@ fn gen_history(rng: &mut Rng, distinct: bool, max_len: usize, failures: bool) ->
             let n = rng.usize_below(5);
             Op::W(gen_tokens(rng, &mut pool, distinct, n))
         } else if failures && rng.chance(1, 9) {
-            if rng.chance(1, 2) { Op::PF } else { Op::NF }
+            match rng.below(5) {
+                0 | 1 => Op::PF,
+                2 | 3 => Op::NF,
+                _ => Op::NL,
+            }
         } else {
             let (pn, pa, pp, pc, pe) = match style {
                 0 => (45, 30, 8, 6, 5),
@@ -944,7 +983,7 @@ fn one(out: &mut Out, lay: MockLayout, ops: &[Op], distinct: bool) {
     );
     let res = match hcommon::catch(|| run_case(lay, ops, distinct)) {
         Ok(r) => r,
-        Err(m) => CaseResult { answer: format!("harness-panic {m}"), fail: None, observed_failure_recovery: false },
+        Err(m) => CaseResult { answer: format!("harness-panic {m}"), fail: None, observed_failure_recovery: false, spec_obs: None },
     };
     // distribution
     out.bucket(if lay.kv { "model_with_kv_cache" } else { "model_without_kv_cache" });
@@ -971,6 +1010,9 @@ fn one(out: &mut Out, lay: MockLayout, ops: &[Op], distinct: bool) {
     if ops.iter().any(|o| matches!(o, Op::E)) {
         out.bucket("has_empty_filter_error");
     }
+    if ops.iter().any(|o| matches!(o, Op::NL)) {
+        out.bucket("has_logits_extraction_error_after_successful_run");
+    }
     if ops.iter().any(|o| matches!(o, Op::PF | Op::NF)) {
         out.bucket("has_failing_model_run");
     }
@@ -987,6 +1029,15 @@ fn one(out: &mut Out, lay: MockLayout, ops: &[Op], distinct: bool) {
         out.bucket("distinct_token_values");
     }
     out.case(&req, &res.answer, res.fail.as_deref(), chat);
+    // The Lean specification (Spec.run, logOk, positions, submitted) evaluated on the observed
+    // calls — only when every field is observable in this layout and nothing was malformed.
+    let observable = lay.has_attn && (!lay.kv || lay.enc);
+    if let (true, Some(obs)) = (observable && res.fail.is_none(), &res.spec_obs) {
+        if !obs.contains('!') {
+            out.bucket("spec_request_lean_predicates_on_observed_calls");
+            out.case(&format!("spec {} :: {}", &req, obs), "spec-ok", None, chat);
+        }
+    }
 }
 
 /// Names of the `pub fn`s in `impl<'a> Generator<'a>` plus the `Iterator::next` impl.
@@ -1061,6 +1112,7 @@ fn run(args: &Args) {
         vec![Op::W(vec![1, 2]), Op::NF, Op::N(3), Op::N(4)],
         vec![Op::W(vec![1, 2]), Op::N(3), Op::NF, Op::NF, Op::A(vec![4]), Op::N(5), Op::N(6)],
         vec![Op::PF, Op::W(vec![5]), Op::N(6), Op::PF, Op::C, Op::A(vec![7]), Op::N(8)],
+        vec![Op::W(vec![1, 2]), Op::NL, Op::A(vec![3]), Op::N(4), Op::NL, Op::N(5)],
     ];
     for ops in &directed {
         for lay in [lay0(true), lay0(false), lay_enc()] {
@@ -1070,16 +1122,16 @@ fn run(args: &Args) {
     // (b) exhaustive short histories over a small alphabet (distinct token values by position)
     let alphabet = |i: usize| -> Vec<Op> {
         let b = 10 * (i as u32 + 1);
-        vec![Op::W(vec![b, b + 1]), Op::A(vec![b + 2]), Op::C, Op::P, Op::N(b + 3), Op::E, Op::PF, Op::NF]
+        vec![Op::W(vec![b, b + 1]), Op::A(vec![b + 2]), Op::C, Op::P, Op::N(b + 3), Op::E, Op::PF, Op::NF, Op::NL]
     };
     let depth = if args.thorough { 5 } else { 4 };
     for d in 1..=depth {
-        let total = 8usize.pow(d as u32);
+        let total = 9usize.pow(d as u32);
         for mut code in 0..total {
             let mut ops = vec![];
             for i in 0..d {
-                ops.push(alphabet(i)[code % 8].clone());
-                code /= 8;
+                ops.push(alphabet(i)[code % 9].clone());
+                code /= 9;
             }
             for lay in [lay0(true), lay0(false)] {
                 one(&mut out, lay, &ops, true);
@@ -1100,5 +1152,5 @@ fn run(args: &Args) {
     }
     out.note("token values: 2/3 of random histories use pairwise distinct token ids (T3 also checked as order of first occurrence in the mock's I/O); the rest use ids 0..4 and u32 boundary values");
     out.note("1/3 of random histories contain failing Model::run calls (each op fails with probability 1/9); 1/4 of layouts have no KV cache, 1/4 are encoder-decoder (cross-attention caches + use_cache_branch)");
-    out.finish("history ops W/A/C/P/N/E/PF/NF, length 1..=30; mock Model with/without KV-cache inputs, decoder-only and merged encoder-decoder layouts, 1-2 layers, 3- and 4-dim caches, optional attention_mask/cache_position inputs, kv_cache_capacity None/0..47");
+    out.finish("history ops W/A/C/P/N/E/PF/NF/NL, length 1..=30; mock Model with/without KV-cache inputs, decoder-only and merged encoder-decoder layouts, 1-2 layers, 3- and 4-dim caches, optional attention_mask/cache_position inputs, kv_cache_capacity None/0..47");
 }
